@@ -77,7 +77,17 @@ JudgeLife(c) ==
                 j # 0 /\ c.steps[k].ka /\ c.steps[k].ok /\ c.steps[j].ok /\ c.steps[k].tr # c.steps[j].tr
           THEN {"C10.Reuse"} ELSE {})
 
-Judge(c) == CASE c.case = "hist" -> JudgeHist(c) [] c.case = "call" -> JudgeCall(c) [] c.case = "entry" -> JudgeEntry(c)
+\* C06 on ONE inverter object used by several tasks at once (whatever the object does with its protocol object in between).
+\* The library serialises per ATTEMPT (between two attempts of a request the lock is released and queued callers get their turn):
+\* a transmission is "open" until the network reacted to it (an answer / error was delivered) or one timeout has passed.
+\* wins = per pair of consecutive transmissions of the object [s, e]: s = ticks between them, e = 1 when the network reacted to
+\* the first before the second was made; no transmission is made while the previous one is still open.
+\* vals = per answered call [got, want]: the value it returned is the content of the register IT asked for
+JudgeMutex(c) ==
+    (IF \E i \in 1..Len(c.wins) : c.wins[i].e = 0 /\ c.wins[i].s < c.T THEN {"C06.ObjectMutex"} ELSE {})
+    \cup (IF \E i \in 1..Len(c.vals) : c.vals[i].got # c.vals[i].want THEN {"C06.ObjectOwnAnswer"} ELSE {})
+
+Judge(c) == CASE c.case = "mutex" -> JudgeMutex(c) [] c.case = "hist" -> JudgeHist(c) [] c.case = "call" -> JudgeCall(c) [] c.case = "entry" -> JudgeEntry(c)
               [] c.case = "life" -> JudgeLife(c)
 
 VARIABLES cid, done
